@@ -114,7 +114,18 @@ func Serve(cfg Cfg, use bool, pattern, path string, customs []string) (obs strin
 	req.Header.SetMethod("GET")
 	req.SetRequestURI(path)
 	fctx.Init(&req, nil, nil)
-	handler(&fctx)
+	panicked := func() (p bool) {
+		defer func() {
+			if r := recover(); r != nil {
+				p = true
+			}
+		}()
+		handler(&fctx)
+		return false
+	}()
+	if panicked { // a panic while serving: reported as status 599 (never a legitimate answer)
+		return "ran=" + strconv.Itoa(ran) + ";st=599" + got
+	}
 	return "ran=" + strconv.Itoa(ran) + ";st=" + strconv.Itoa(fctx.Response.StatusCode()) + got
 }
 
